@@ -121,10 +121,43 @@ class ExecGet(_Exec):
             else fresh_input_ref(it, "instance")
         self.owner = st.fresh_val("owner")
         st.assume(z3.Or(V.is_none(self.owner), V.is_cls(self.owner)))
+        # a descriptor assigned in a class body is told its name first (descriptor protocol: __set_name__, when defined)
+        sn = self.info.find_method("__set_name__")
+        if sn is not None:
+            it.call_function(it.bind_method(self.info, sn, self.obj),
+                             CallArgs([V.VCls(st.fresh("owner_class", I)), V.VStr(st.fresh("attribute_name", I))]))
+        self.h0 = st.snapshot_heap()
         return method(it, self.info, self.obj, "__get__"), CallArgs([self.instance, self.owner])
+
+    def attr(self, it, obj, name, node):
+        if name == "__dict__" and it.kind(self.instance) == "ref" and obj.eq(self.instance):
+            # the receiver's attribute dictionary (an ordinary instance has one)
+            d = it.st.ghost.get("$instance_dict")
+            if d is None:
+                d = it.st.sym_ref("instance.__dict__", "dict")
+                it.st.ghost["$instance_dict"] = d
+                self.d0 = dict_parts(it, d)
+            return d
+        return super().attr(it, obj, name, node) if hasattr(super(), "attr") else None
 
     def on_return(self, it, ret):
         st = it.st
+        # looking the method up is a read: neither the receiver (its attributes) nor the wrapper object change
+        same = []
+        for obj in (self.instance, self.obj):
+            if it.kind(obj) != "ref":
+                continue
+            a = V.addr(obj)
+            for k, v in st.heap.items():
+                v0 = self.h0.get(k, st.heap0.get(k))
+                if v0 is not None and not v.eq(v0):
+                    same.append(z3.Select(v, a) == z3.Select(v0, a))
+        d = st.ghost.get("$instance_dict")
+        if d is not None:
+            p = dict_parts(it, d)
+            same.append(z3.And(p["has"] == self.d0["has"], p["val"] == self.d0["val"]))
+        st.check("P1:looking-the-method-up-changes-neither-the-receiver-nor-the-wrapper(no-entry-is-planted-in-the-instance)",
+                 z3.And(same) if same else z3.BoolVal(True))
         if it.kind(ret) == "ref" and st.class_id_of(ret) == it.ct.id("partial"):
             pv = st.ghost.get("$partials", {}).get(str(st.simp(V.addr(ret))))
             fv = st.fun_of(pv.func) if pv is not None else None
